@@ -16,6 +16,8 @@ namespace verif
             return new PoolSubj<PT, src_fixed>(where, src, ns, bs);
         if (s == "static")
             return new PoolSubj<PT, src_static>(where, src, ns, bs);
+        if (s == "virtual")
+            return new PoolSubj<PT, src_virtual>(where, src, ns, bs);
         return nullptr;
     }
     ISubject* make_pool(const Exec& x, void* where, int src)
